@@ -200,7 +200,10 @@ def result_from_payload(events, summary):
     return res
 
 
-def run_forked(execute_fn, scenario):
+RUN_WALL_CAP = 30.0   # seconds; a simulated run normally takes milliseconds
+
+
+def run_forked(execute_fn, scenario, wall_cap=None):
     """Execute one scenario in a forked child of this (already initialised) process.
 
     Every run starts from the same pristine process state, so state that the code under test keeps at
@@ -233,6 +236,29 @@ def run_forked(execute_fn, scenario):
             os._exit(code)
     os.close(wfd)
     chunks = []
+    import select
+    import signal
+    global RUN_WALL_CAP
+    cap = wall_cap or RUN_WALL_CAP
+    ready, _, _ = select.select([rfd], [], [], cap)
+    if not ready:
+        RUN_WALL_CAP = min(RUN_WALL_CAP, 4.0)   # once the code under test has hung, do not wait as long again
+        # bounded progress: the run neither finished nor failed within the cap (an endless loop in the code under
+        # test).  The child is killed; the verdict is a violation with a synthetic, deterministic log.
+        try:
+            os.kill(pid, signal.SIGKILL)
+        except OSError:
+            pass
+        os.waitpid(pid, 0)
+        os.close(rfd)
+        prop = scenario.get("prop", "?") if isinstance(scenario, dict) else "?"
+        res = RunResult()
+        res.log = EventLog()
+        res.log.emit("hang")
+        res.violate(prop + ".hang", prop + ".hang no-progress",
+                    "the simulated run did not finish within %.0f s of wall time (normal: milliseconds)" % cap)
+        res.nontrivial = True
+        return res
     with os.fdopen(rfd, "rb") as f:
         head = f.read(8)
         if len(head) == 8:
